@@ -16,6 +16,12 @@ fault-free run R0 of the *same real code* with the same arguments:
    F3  (not judged) a wrong-typed return at invocation 1 has no Rust counterpart; it is injected only to
        exercise the error paths of the glue and must not crash the interpreter
    F4  the fault-free run itself returns a value or raises deterministically (same outcome twice)
+   F5  after a run in which a fault fired, the fault-free run gives R0 again (a fault leaves nothing behind)
+   A1  what the callable was handed stays what it was: an argument (list) kept by the callable is not changed by
+       the driver afterwards, nor by any later driver call (the Rust closure owns its argument)
+   R1  a callable that, on its first invocation, calls the same driver again (same length, other point) before
+       using its own argument gets R0; the inner call gets what it gets when run alone (drivers are re-entrant:
+       the Rust drivers keep nothing outside their stack frame)
 Nothing else is demanded (no message texts, no argument classes, no invocation counts as such).
 
 Everything is a pure function of (--seed, --tier); the event log digest is printed so that the
@@ -38,8 +44,20 @@ class InjectedCancel(BaseException):
     """models cancellation / KeyboardInterrupt arriving inside the callback"""
 
 
+class EvilStr(Exception):
+    """an exception that cannot be turned into text (a binding that formats the user's exception trips over it)"""
+
+    def __str__(self):
+        raise RuntimeError("__str__ of the injected exception was called and fails")
+
+    __repr__ = __str__
+
+
 EXC_KINDS = {
     "custom": Injected,
+    "evil_str": EvilStr,
+    "keyboard_interrupt": KeyboardInterrupt,
+    "stop_iteration": StopIteration,
     "type_error": TypeError,
     "value_error": ValueError,
     "zero_division": ZeroDivisionError,
@@ -50,6 +68,8 @@ WRONG_RETURNS = {
     "float": lambda args: 1.5,
     "list": lambda args: [1.0, 2.0],
     "str": lambda args: "x",
+    "int": lambda args: 3,
+    "tuple": lambda args: (first_leaf(args), first_leaf(args)),
     "foreign_dual": lambda args: nd.HyperHyperDual64(1.0, 0.0, 0.0, 0.0, 0.0, 0.0, 0.0, 0.0) if not isinstance(first_leaf(args), nd.HyperHyperDual64) else nd.Dual64(1.0, 0.0),
 }
 
@@ -130,11 +150,19 @@ class Probe:
         self.calls = 0
         self.log = []
         self.injected = None  # the exception object raised, if any
+        self.kept = []        # (invocation, argument objects, their elements, snapshot when handed over)
+        self.inner = None     # outcome of the re-entrant inner call, if the plan asked for one
+        self.reenter = None   # set by invoke(): a thunk performing the inner call
 
     def __call__(self, *args):
         self.calls += 1
         k = self.calls
         p = self.plan
+        self.kept.append((k, args, [list(a) if isinstance(a, (list, tuple)) else None for a in args], snapshot(args)))
+        if p["kind"] == "reenter" and k == 1 and self.reenter is not None:
+            self.log.append(("call", k, True))
+            self.inner = self.reenter()
+            return self.fn(*args)
         fire = p["kind"] != "none" and (k == p["at"] or (p.get("permanent") and k >= p["at"]))
         self.log.append(("call", k, bool(fire)))
         if fire:
@@ -148,6 +176,23 @@ class Probe:
         return self.fn(*args)
 
 
+def snapshot(args):
+    """what the callable was handed, as text: every argument, lists element by element"""
+    return [[repr(e) for e in a] if isinstance(a, (list, tuple)) else repr(a) for a in args]
+
+
+def kept_changed(pr):
+    """None, or a description of an argument of `pr`'s callable that is no longer what it was when handed over"""
+    for k, args, elems, snap in pr.kept:
+        now = snapshot(args)
+        if now != snap:
+            return f"the argument handed to the callable at invocation {k} has changed: was {str(snap)[:160]}, is now {str(now)[:160]}"
+        for a, el in zip(args, elems):
+            if el is not None and (len(a) != len(el) or any(x is not y for x, y in zip(a, el))):
+                return f"the list handed to the callable at invocation {k} holds other objects than when it was handed over (it was refilled in place)"
+    return None
+
+
 def canon(v):
     if isinstance(v, float):
         return v.hex()
@@ -158,46 +203,76 @@ def canon(v):
     return repr(v)
 
 
-def invoke(case, plan):
-    """run one driver call of the real code under `plan`; returns (outcome, probe)"""
+def make_call(case, fn_or_probe):
+    """the driver call of a scenario with the given callable"""
     d = case["driver"]
-    fam = case["fn"]
     x = case["x"]
 
     def box(seq):
         return tuple(seq) if case.get("container") == "tuple" else list(seq)
 
     if d in ("first_derivative", "second_derivative", "third_derivative"):
-        pr = Probe(UNI[fam], plan)
-        call = lambda: getattr(nd, d)(pr, x[0])
-    elif d == "second_partial_derivative":
-        pr = Probe(BI[fam], plan)
-        call = lambda: nd.second_partial_derivative(pr, x[0], x[1])
-    elif d == "third_partial_derivative":
-        pr = Probe(TRI[fam], plan)
-        call = lambda: nd.third_partial_derivative(pr, x[0], x[1], x[2])
-    elif d == "third_partial_derivative_vec":
-        pr = Probe(SCALAR_OF_LIST[fam], plan)
+        return lambda: getattr(nd, d)(fn_or_probe, x[0])
+    if d == "second_partial_derivative":
+        return lambda: nd.second_partial_derivative(fn_or_probe, x[0], x[1])
+    if d == "third_partial_derivative":
+        return lambda: nd.third_partial_derivative(fn_or_probe, x[0], x[1], x[2])
+    if d == "third_partial_derivative_vec":
         i, j, k = case["ijk"]
-        call = lambda: nd.third_partial_derivative_vec(pr, list(x), i, j, k)
-    elif d in ("gradient", "hessian"):
-        pr = Probe(SCALAR_OF_LIST[fam], plan)
-        call = lambda: getattr(nd, d)(pr, box(x))
-    elif d == "jacobian":
-        pr = Probe(VECTOR_OF_LIST[fam], plan)
-        call = lambda: nd.jacobian(pr, box(x))
-    elif d == "partial_hessian":
-        pr = Probe(BI_LIST[fam], plan)
-        call = lambda: nd.partial_hessian(pr, box(x), box(case["y"]))
-    else:
-        raise SystemExit(f"harness error: unknown driver {d}")
+        return lambda: nd.third_partial_derivative_vec(fn_or_probe, list(x), i, j, k)
+    if d in ("gradient", "hessian", "jacobian"):
+        return lambda: getattr(nd, d)(fn_or_probe, box(x))
+    if d == "partial_hessian":
+        return lambda: nd.partial_hessian(fn_or_probe, box(x), box(case["y"]))
+    raise SystemExit(f"harness error: unknown driver {d}")
+
+
+def user_fn(case):
+    d, fam = case["driver"], case["fn"]
+    if d in ("first_derivative", "second_derivative", "third_derivative"):
+        return UNI[fam]
+    if d == "second_partial_derivative":
+        return BI[fam]
+    if d == "third_partial_derivative":
+        return TRI[fam]
+    if d in ("third_partial_derivative_vec", "gradient", "hessian"):
+        return SCALAR_OF_LIST[fam]
+    if d == "jacobian":
+        return VECTOR_OF_LIST[fam]
+    if d == "partial_hessian":
+        return BI_LIST[fam]
+    raise SystemExit(f"harness error: unknown driver {d}")
+
+
+def inner_case(case):
+    """the scenario of the re-entrant inner call: same driver, same lengths, another point"""
+    c = dict(case, x=[v + 0.125 for v in case["x"]])
+    if "y" in case:
+        c["y"] = [v + 0.375 for v in case["y"]]
+    return c
+
+
+def outcome_of(call, pr=None):
     try:
         val = call()
-        out = {"kind": "ok", "value": canon(val)}
+        return {"kind": "ok", "value": canon(val)}
     except BaseException as e:  # noqa: BLE001 - the simulator must see everything, including cancellation
         if isinstance(e, (SystemExit, MemoryError)):
             raise
-        out = {"kind": "raise", "type": type(e).__name__, "is_injected": e is pr.injected, "msg": str(e)[:120]}
+        try:
+            msg = str(e)[:120]
+        except BaseException:  # noqa: BLE001 - the injected exception that cannot be printed
+            msg = "<unprintable>"
+        return {"kind": "raise", "type": type(e).__name__, "is_injected": pr is not None and e is pr.injected, "msg": msg}
+
+
+def invoke(case, plan):
+    """run one driver call of the real code under `plan`; returns (outcome, probe)"""
+    pr = Probe(user_fn(case), plan)
+    if plan["kind"] == "reenter":
+        ic = inner_case(case)
+        pr.reenter = lambda: outcome_of(make_call(ic, user_fn(ic)))
+    out = outcome_of(make_call(case, pr), pr)
     return out, pr
 
 
@@ -212,12 +287,26 @@ def plans_for(tier):
     for ret in WRONG_RETURNS:
         plans.append({"kind": "wrong_return", "ret": ret, "at": 1})
     plans.append({"kind": "wrong_return", "ret": "none", "at": 2})
+    plans.append({"kind": "reenter", "at": 1})
     return plans
 
 
 def judge(case, plan, r0, out, pr):
     """returns None or (class, message)"""
+    changed = kept_changed(pr)
+    if changed is not None:
+        return ("A1_argument_changed", changed + " (after the driver returned)")
     if plan["kind"] == "none":
+        return None
+    if plan["kind"] == "reenter":
+        if pr.inner is None:
+            return None  # the callable was never invoked (arguments rejected before)
+        alone, _ = invoke(inner_case(case), {"kind": "none"})
+        if out != r0:
+            return ("R1_reentrancy_changed_outcome", f"the callable called {case['driver']} again (same length, other point) before using its own argument; "
+                    f"the outer call then returned {str(out)[:110]} instead of {str(r0)[:110]}")
+        if pr.inner != alone:
+            return ("R1_reentrancy_changed_inner", f"the inner call of {case['driver']} made from inside the callable returned {str(pr.inner)[:110]}; run alone it returns {str(alone)[:110]}")
         return None
     fired = any(e[2] for e in pr.log)
     if not fired:
@@ -241,6 +330,35 @@ def judge(case, plan, r0, out, pr):
     # a wrong-typed return on the first invocation has no Rust counterpart (the closure's return type is fixed by
     # the compiler), so nothing is demanded of it
     return None
+
+
+def run_scenario(case, plan):
+    """everything the main loop does for one (scenario, plan), self-contained: two fault-free runs, the run under
+    the plan, the residue run, and the re-examination of every argument retained on the way.
+    Returns (violation or None, fault-free outcome, outcome under the plan, probe of that run)"""
+    r0, p0 = invoke(case, {"kind": "none"})
+    r0b, p0b = invoke(case, {"kind": "none"})
+    if r0 != r0b:
+        return ("F4_nondeterministic", f"two fault-free runs differ: {str(r0)[:100]} vs {str(r0b)[:100]}"), r0, r0b, p0b
+    for old in (p0, p0b):
+        ch = kept_changed(old)
+        if ch is not None:
+            return ("A1_argument_changed_by_later_call", ch + " (two fault-free calls in a row)"), r0, r0b, p0
+    if plan["kind"] == "none":
+        return None, r0, r0b, p0b
+    out, pr = invoke(case, plan)
+    j = judge(case, plan, r0, out, pr)
+    if j is None and any(e[2] for e in pr.log):
+        again, _ = invoke(case, {"kind": "none"})
+        if again != r0:
+            j = ("F5_fault_left_residue", f"after a run under {plan}, the fault-free run returns {str(again)[:100]} instead of {str(r0)[:100]}")
+    if j is None:
+        for old in (p0, p0b, pr):
+            ch = kept_changed(old)
+            if ch is not None:
+                j = ("A1_argument_changed_by_later_call", ch + f" (after a later call of {case['driver']})")
+                break
+    return j, r0, out, pr
 
 
 def cases_for(tier, rng):
@@ -284,9 +402,7 @@ def cases_for(tier, rng):
 def minimise(case, plan, cls):
     """smaller vectors, simplest function, list container - while the same class of violation persists"""
     def still(c, p):
-        r0, _ = invoke(c, {"kind": "none"})
-        out, pr = invoke(c, p)
-        j = judge(c, p, r0, out, pr)
+        j = run_scenario(c, p)[0]
         return j is not None and j[0] == cls
 
     steps = 0
@@ -321,9 +437,7 @@ def main():
     if a.replay:
         rf = json.load(open(a.replay))
         case, plan = rf["case"], rf["plan"]
-        r0, _ = invoke(case, {"kind": "none"})
-        out, pr = invoke(case, plan)
-        j = judge(case, plan, r0, out, pr)
+        j, r0, out, pr = run_scenario(case, plan)
         json.dump({"replay": True, "case": case, "plan": plan, "fault_free": r0, "outcome": out, "invocations": pr.calls, "log": pr.log,
                    "violation": None if j is None else {"class": j[0], "message": j[1]}}, open(a.out, "w"), indent=1)
         return
@@ -335,10 +449,15 @@ def main():
     stats = {"scenarios": len(cases), "runs": 0, "faults_planned": 0, "faults_fired": {}, "fired_runs": 0, "distinct_histories": set(),
              "drivers": {}, "lengths": set(), "raised_outcomes": 0, "max_invocations": 0}
     samples, violations = [], {}
+    recent = []  # the probes of the last few runs: their retained arguments are re-examined after later calls
     for ci, case in enumerate(cases):
         r0, p0 = invoke(case, {"kind": "none"})
-        r0b, _ = invoke(case, {"kind": "none"})
+        r0b, p0b = invoke(case, {"kind": "none"})
         stats["runs"] += 2
+        for old in (p0, p0b):
+            ch = kept_changed(old)
+            if ch is not None:
+                violations.setdefault(f"A1_argument_changed_by_later_call:{case['driver']}", (ci, case, {"kind": "none"}, ("A1_argument_changed_by_later_call", ch + " (two fault-free calls in a row)"), r0, r0b, p0))
         stats["drivers"][case["driver"]] = stats["drivers"].get(case["driver"], 0) + 1
         stats["lengths"].add(len(case["x"]))
         if r0 != r0b:
@@ -349,7 +468,7 @@ def main():
             stats["runs"] += 1
             stats["faults_planned"] += 1
             fired = sum(1 for e in pr.log if e[2])
-            key = plan["kind"] + ":" + plan.get("exc", plan.get("ret", ""))
+            key = plan["kind"] + ":" + plan.get("exc", plan.get("ret", "same_driver"))
             if fired:
                 stats["fired_runs"] += 1
                 stats["faults_fired"][key] = stats["faults_fired"].get(key, 0) + fired
@@ -364,6 +483,23 @@ def main():
             if len(samples) < 4 and fired and (ci * 7 + len(samples)) % 23 == 0:
                 samples.append({"driver": case["driver"], "n": len(case["x"]), "fn": case["fn"], "plan": plan, "invocation_log": pr.log, "outcome": out, "fault_free": r0})
             j = judge(case, plan, r0, out, pr)
+            if j is None and fired:
+                # F5: a fault leaves nothing behind - the fault-free run still gives R0
+                again, _ = invoke(case, {"kind": "none"})
+                stats["runs"] += 1
+                stats["residue_checks"] = stats.get("residue_checks", 0) + 1
+                if again != r0:
+                    j = ("F5_fault_left_residue", f"after a run in which {key} fired, the fault-free run returns {str(again)[:100]} instead of {str(r0)[:100]}")
+            if j is None:
+                # A1 across calls: what earlier callables were handed must still be what it was
+                for old in recent:
+                    ch = kept_changed(old)
+                    if ch is not None:
+                        j = ("A1_argument_changed_by_later_call", ch + f" (after a later call of {case['driver']})")
+                        break
+            recent.append(pr)
+            del recent[:-3]
+            stats["arguments_retained_and_rechecked"] = stats.get("arguments_retained_and_rechecked", 0) + len(pr.kept)
             if j is not None:
                 # first violating run per finding key (what fails: class of violation and driver)
                 violations.setdefault(f"{j[0]}:{case['driver']}", (ci, case, plan, j, r0, out, pr))
@@ -377,9 +513,8 @@ def main():
     out_v = []
     for key, (ci, case, plan, j, r0, out, pr) in sorted(violations.items(), key=lambda kv: kv[1][0]):
         mcase, steps = (case, 0) if j[0] == "F4_nondeterministic" else minimise(case, plan, j[0])
-        r0m, _ = invoke(mcase, {"kind": "none"})
-        outm, prm = invoke(mcase, plan)
-        jm = judge(mcase, plan, r0m, outm, prm) or j
+        jm, r0m, outm, prm = run_scenario(mcase, plan)
+        jm = jm or j
         out_v.append({"class": j[0], "message": jm[1], "scenario_index": ci, "case": mcase, "plan": plan, "minimised_from": case if mcase != case else None,
                       "minimise_steps": steps, "fault_free": r0m, "outcome": outm if isinstance(outm, dict) else None,
                       "invocation_log": prm.log, "finding_key": key})
